@@ -71,6 +71,9 @@ func checkLiteralCase(c LiteralCase) (sig, what string) {
 	// near misses of the same length, and the text with its last byte dropped
 	b := []byte(c.Bytes)
 	for i := range b {
+		if len(b) > 64 && i >= 2 && i < len(b)-8 {
+			continue // long literals: both ends only
+		}
 		m := append([]byte{}, b...)
 		m[i] ^= 1
 		if m[i] == 0 {
@@ -227,4 +230,62 @@ func TestC16Random(t *testing.T) {
 		}
 		st.NonTrivial(c.Literal, func() any { return map[string]any{"literal": c.Literal, "denotes": c.Bytes} })
 	})
+}
+
+// TestC16Long: literals longer than the lexer's read buffer, with every byte of an
+// escape sequence placed in turn on source offset 4096 (thorough: also 8192).
+func TestC16Long(t *testing.T) {
+	seedNote(t)
+	StartWatchdog("C16", 60*time.Second)
+	st := NewStats("C16", "long", "exhaustive over (byte of a 13-byte sample, spelling, quote style, shift): a literal of about 4 kB whose padding is chosen so that each byte of the spelled unit (and of incomplete \\x escapes) falls on source offset 4096 (thorough: also 8192); same oracle, near misses at both ends of the text; every case non-trivial, distinct by (unit, quote, shift)")
+	st.Exhaustive = true
+	defer st.Write()
+	boundaries := []int{4096}
+	if tier() == "thorough" {
+		boundaries = append(boundaries, 8192)
+	}
+	type unit struct{ src, bytes, class string }
+	for _, q := range []byte{'\'', '"'} {
+		qs := string([]byte{q})
+		var units []unit
+		for _, c := range []byte{'\n', '\t', ' ', 'a', 'F', '\\', '\'', '"', 0x01, 0x7f, 'x', '-', '0'} {
+			sp := spellings(c, q)
+			kinds := make([]string, 0, len(sp))
+			for k := range sp {
+				kinds = append(kinds, k)
+			}
+			sortStrings(kinds)
+			for _, k := range kinds {
+				units = append(units, unit{sp[k], string([]byte{c}), k})
+			}
+		}
+		for _, h := range []string{"", "4", "F"} {
+			units = append(units, unit{"\\x" + h + "Z", "x" + h + "Z", "x_incomplete"})
+			units = append(units, unit{"\\x" + h + "\\n", "x" + h + "\n", "x_incomplete"})
+		}
+		units = append(units, unit{"\\x41\\x42", "AB", "hex_pair"})
+		for ui, u := range units {
+			if ui%envInt("VERIF_NSHARDS", 1) != envInt("VERIF_SHARD_INDEX", 0) {
+				continue
+			}
+			for _, boundary := range boundaries {
+				for j := -1; j <= len(u.src); j++ {
+					pad := strings.Repeat("p", boundary-len("find all ")-1-j)
+					c := LiteralCase{Literal: qs + pad + u.src + "b" + qs, Bytes: pad + u.bytes + "b"}
+					st.Eval()
+					SetInflight(func() string { return jsonStr(Failure{Property: "C16", Kind: "literal", Case: c}) })
+					sig, what := checkLiteralCase(c)
+					ClearInflight()
+					if sig != "" {
+						Fail(t, Failure{Property: "C16", Kind: "literal", What: fmt.Sprintf("[unit %s at source offset %d-%d] %s", u.src, boundary-j, boundary-j+len(u.src), clipMsg(what, 300)), Case: c, Sig: sig})
+					}
+					st.Count("class_" + u.class)
+					key := fmt.Sprintf("%s|%s|%d|%d", qs, u.src, boundary, j)
+					st.NonTrivial(key, func() any {
+						return map[string]any{"unit": u.src, "quote": qs, "unit_starts_at_source_offset": boundary - j, "literal_bytes": len(c.Literal)}
+					})
+				}
+			}
+		}
+	}
 }
